@@ -24,8 +24,16 @@ for meta_path in sorted(glob.glob("/verif/seeded/*/meta.json")):
             for c in m["detection"]:
                 env = dict(os.environ, PYVC_REPO=T, PYVC_EVIDENCE_DIR=T + "/ev", PYVC_REPLAY_DIR="/tmp/seedreplays")
                 rr = subprocess.run(["./check", c], cwd=RUN_DIR, capture_output=True, text=True, env=env)
-                lines = [l for l in rr.stdout.splitlines() if l.startswith(("VIOLATION", "UNDECIDED", "CHECKER"))][:3]
-                det[c] = dict(exit=rr.returncode, lines=lines)
+                alll = [l for l in rr.stdout.splitlines() if l.startswith(("VIOLATION", "UNDECIDED", "CHECKER"))]
+                LEGS = ("g1_", "c0", "c1", "c2", "chains", "trees", "corpus")
+                vi = [l.split("replay=")[1].split("/")[-1] for l in alll if l.startswith("VIOLATION") and "replay=" in l]
+                counts = dict(leg=sum(1 for v in vi if v.startswith(LEGS)), obligation=sum(1 for v in vi if not v.startswith(LEGS)),
+                              undecided=sum(1 for l in alll if l.startswith("UNDECIDED")), crash=sum(1 for l in alll if l.startswith("CHECKER")))
+                # a few lines of each kind (the full output is not kept)
+                lines = [l for l in alll if l.startswith("VIOLATION") and l.split("replay=")[1].split("/")[-1].startswith(LEGS)][:2] + \
+                        [l for l in alll if l.startswith("VIOLATION") and not l.split("replay=")[1].split("/")[-1].startswith(LEGS)][:2] + \
+                        [l for l in alll if not l.startswith("VIOLATION")][:2]
+                det[c] = dict(exit=rr.returncode, lines=lines, counts=counts)
             m["detection_now"] = det
             print(m["id"], {k: v["exit"] for k, v in det.items()})
         json.dump(m, open(meta_path, "w"), indent=1)
